@@ -111,9 +111,24 @@ def accessor(ctx, qn, col):
             # the row is found some other way (a streaming cursor, a bisect over a list, ...): not read by this rule
             ctx.undecided('C06.S1', '%s locates the row by one get_indexer call [%s]' % (qn, cond_str(p)[:60]), fn.site(), 'no index lookup of the recognised family on this path')
             continue
-        if not ctx.require(len(distinct) == 1, 'C06.S1', '%s locates the row by one get_indexer call [%s]' % (qn, cond_str(p)[:60]), fn.site(),
-                           '%d distinct get_indexer calls' % len(distinct), key='C06.S1|%s|one-lookup' % qn):
-            continue
+        from ..lib import strip_ndarray as _strip
+
+        def _direct(ix, c_):
+            ix = _strip(ix)
+            if ix[0] in ('list', 'tuple') and len(ix[1]) in (1, 2):
+                return _direct(ix[1][0], c_)
+            return T.teq(ix, c_) or ix == ('sub', c_, num(0)) or (ix[0] == 'sub' and ix[2] == num(0) and _strip(ix[1]) == c_)
+        positions = [s_[2] for s_ in T.subterms(v) if s_[0] == 'sub' and any(z_[0] == 'call' and z_[1] == ('meth', 'get_indexer') for z_ in T.subterms(s_[2]))]
+        as_position = [c for c in distinct if any(_direct(ix, c) for ix in positions)]
+        if len(distinct) > 1 or (distinct and not as_position):
+            # several lookups, or a row reached by arithmetic on what a lookup answered (an opening row plus an offset, a clamp): the lookup whose answer IS the
+            # row is the one this rule reads; where there is none, whether the arithmetic lands on the last row at or before dt depends on the layout of the stamps
+            if len(as_position) != 1:
+                ctx.undecided('C06.S1', '%s locates the row by one get_indexer call [%s]' % (qn, cond_str(p)[:60]), fn.site(),
+                              'the row is %s' % ('computed from the answers of %d lookups' % len(distinct) if not as_position else 'taken from %d lookups' % len(as_position)))
+                continue
+            distinct = as_position
+        ctx.holds('C06.S1', '%s locates the row by one get_indexer call [%s]' % (qn, cond_str(p)[:60]), fn.site())
         g = distinct[0]
         kws = dict(g[3])
         meth = kws.get('method')
@@ -437,12 +452,25 @@ def handler(ctx):
             return depth <= 4 and callee.path == _p and callee.name.startswith('_') and not callee.name.startswith('__')
         ps = summarise(ctx, qn, policy=own_helpers)
         got = False
+        from ..lib import memo_tables
+        memos = memo_tables(ctx, fn, ps)
+        for m_, vd in memos.items():
+            if vd[0] == 'unsound':
+                ctx.violation('C06.S6', '%s answers from its memo %s only what it would ask the data sources afresh' % (qn, m_), fn.site(),
+                              'the memo is keyed by %s but the stored value also depends on %s%s: a later query with another %s is answered with the remembered price'
+                              % (fmt(vd[1]), vd[2], (' (%s)' % vd[3]) if len(vd) > 3 else '', '/'.join(vd[2])), key='C06.S6|%s|memo-key' % qn)
+            elif vd[0] == 'sound':
+                ctx.holds('C06.S6', '%s: memo %s is keyed by (or emptied on a change of) everything its entries depend on (%s)' % (qn, m_, fmt(vd[1])), fn.site())
+        sound = {m_ for m_, vd in memos.items() if vd[0] == 'sound'}
+        unsound = {m_ for m_, vd in memos.items() if vd[0] == 'unsound'}
         for p in ps:
             if p.outcome != 'return':
                 continue
             v = p.value
             if v == NAN or v[0] == 'havoc':
                 continue
+            if v[0] == 'sub' and v[1][0] == 'attr' and v[1][1] == V('self') and v[1][2] in sound | unsound:
+                continue        # a hit of the memo: equals the miss that filled the entry when the memo is sound (judged above)
             ok = v[0] == 'call' and v[1] == ('fn', 'CSVDailyBarDataSource.' + src) and v[2][1:] == (V('dt'), V('asset_symbol'))
             mentions = any(s_[0] == 'call' and s_[1][0] == 'fn' and s_[1][1].endswith('.' + src) for s_ in T.subterms(v))
             if not ok and not mentions:
